@@ -4,3 +4,4 @@ import PulserModel.PhaseRef
 import PulserModel.Sequence
 import PulserModel.Layout
 import PulserModel.Geometry
+import PulserModel.Hamiltonian
